@@ -243,6 +243,17 @@ func c03Faults(r *core.Run, w *world.World, d *c03Doc, B *world.PKI) []c03Fault 
 	authBroken("signature-missing", with(world.Envelope(world.Member{M, E}), nil), "no signature")
 	authBroken("member-only-under-case-variant", with(world.Envelope(world.Member{caseVariant(M, 0), E}, world.Member{"signature", sigField(w.A.TcbKey, E)}), nil), "no member under the exact name")
 	authBroken("signature-empty", with(world.Envelope(world.Member{M, E}, world.Member{"signature", []byte(`""`)}), nil), "no signature")
+	{
+		// the signature member is exactly 64 bytes: a valid signature with bytes appended, or cut short, is not it
+		good64 := sigField(w.A.TcbKey, E)
+		hexOf := func(b []byte) string { return hex.EncodeToString(b) }
+		app1 := append(append([]byte(nil), good64[:len(good64)-1]...), []byte(hexOf(t.Bytes(1))+`"`)...)
+		app64 := append(append([]byte(nil), good64[:len(good64)-1]...), []byte(hexOf(t.Bytes(64))+`"`)...)
+		cut := append(append([]byte(nil), good64[:len(good64)-3]...), '"')
+		authBroken("signature-with-one-byte-appended", with(world.Envelope(world.Member{M, E}, world.Member{"signature", app1}), nil), "the signature member is not a 64-byte signature (a byte was appended to a valid one)")
+		authBroken("signature-with-64-bytes-appended", with(world.Envelope(world.Member{M, E}, world.Member{"signature", app64}), nil), "the signature member is not a 64-byte signature (64 bytes were appended to a valid one)")
+		authBroken("signature-cut-to-63-bytes", with(world.Envelope(world.Member{M, E}, world.Member{"signature", cut}), nil), "the signature member is not a 64-byte signature (cut short)")
+	}
 	authBroken("signature-odd-hex", with(world.Envelope(world.Member{M, E}, world.Member{"signature", append(append([]byte(`"`), sigField(w.A.TcbKey, E)[1:10]...), '"')}), nil), "signature unusable")
 	authBroken("signature-not-hex", with(world.Envelope(world.Member{M, E}, world.Member{"signature", []byte(`"` + strings.Repeat("zz", 64) + `"`)}), nil), "signature unusable")
 	// issuer-chain header faults (body genuine)
@@ -340,7 +351,15 @@ func c03Run(r *core.Run) {
 		return
 	}
 	t := r.T
-	w := world.NewWorld(t, world.Cfg{Processor: 1, AuthLen: 0})
+	// every third world lives at the wall clock's now: its faults are additionally verified with Options.Now
+	// unset (the library reads the clock itself; collateral windows are weeks wide)
+	nowWorld := r.Index%3 == 2
+	cfg := world.Cfg{Processor: 1, AuthLen: 0}
+	if nowWorld {
+		cfg.Epoch, cfg.NetLat = time.Now().UTC().Truncate(time.Hour), -1
+		r.Probe("world_at_wall_clock_now")
+	}
+	w := world.NewWorld(t, cfg)
 	B := world.NewPKI(t, "B", w.Epoch, w.A)
 	d := &c03Doc{route: "tcb", member: "tcbInfo", hdr: world.HdrTcbInfo}
 	if t.Bool() {
@@ -355,7 +374,11 @@ func c03Run(r *core.Run) {
 	if t.Draw(3) != 0 {
 		d.down = true
 		if d.route == "tcb" {
-			switch t.Draw(3) {
+			switch t.Draw(4) {
+			case 3:
+				w.Tcb.Next = w.Times[world.TTcb].AddDate(0, 0, -1)
+				w.Tcb.Issue = w.Tcb.Next.AddDate(0, 0, -30)
+				d.downWhy = "the signed TCB Info is past its nextUpdate"
 			case 0:
 				w.Tcb.Levels[w.LevelIdx].Status = "OutOfDate"
 				d.downWhy = "matching TCB level is OutOfDate"
@@ -371,7 +394,11 @@ func c03Run(r *core.Run) {
 				d.downWhy = "SEAM signer of the signed TCB Info differs from the quote's"
 			}
 		} else {
-			switch t.Draw(2) {
+			switch t.Draw(3) {
+			case 2:
+				w.QE.Next = w.Times[world.TQE].AddDate(0, 0, -1)
+				w.QE.Issue = w.QE.Next.AddDate(0, 0, -30)
+				d.downWhy = "the signed QE Identity is past its nextUpdate"
 			case 0:
 				for i := range w.QE.Levels {
 					if w.QE.Levels[i].Status == "UpToDate" {
@@ -396,7 +423,7 @@ func c03Run(r *core.Run) {
 		d.genuine = w.QE.JSON()
 	}
 	raw := w.Quote.Bytes()
-	r.Eventf("world %s doc=%s down=%v (%s)", w.Describe(), d.route, d.down, d.downWhy)
+	r.Eventf("world %s doc=%s down=%v (%s)", tern(nowWorld, "(at wall-clock now)", w.Describe()), d.route, d.down, d.downWhy)
 	// controls
 	ctl := verifyRaw(raw, worldOpts(w, O1))
 	if d.down == ctl.Accepted() {
@@ -438,6 +465,15 @@ func c03Run(r *core.Run) {
 					r.Violate("C03:accepted-on-repetition:"+d.route+":"+classOfFault(name), "%s endpoint fault %q: rejected at level %s, then accepted when the very same verification was repeated through the same options value (%s)", d.route, name, optNames[level], why)
 				}
 				r.Eval()
+			}
+			if nowWorld && !strings.HasPrefix(name, "flip-") && expect == world.MustReject {
+				on := worldOpts(w, level)
+				on.Now = nil
+				if ou := verifyRaw(raw, on); ou.Accepted() {
+					r.Violate("C03:accepted:"+d.route+":"+classOfFault(name), "%s endpoint fault %q accepted at level %s with Options.Now unset: %s (world at wall-clock now)", d.route, name, optNames[level], why)
+				}
+				r.Eval()
+				r.Probe("fault_with_now_unset")
 			}
 			c03SetEndpoint(w, d, good)
 			r.Eval()
@@ -618,6 +654,6 @@ func init() {
 			return 46
 		},
 		Run:       c03Run,
-		MustProbe: []string{"flavour_down", "flavour_up", "dup_member_after_genuine_with_flipping_content", "default_anchor_lookalike_collateral", "second_verifier_with_other_roots", "faults_through_long_lived_options"},
+		MustProbe: []string{"flavour_down", "flavour_up", "dup_member_after_genuine_with_flipping_content", "default_anchor_lookalike_collateral", "second_verifier_with_other_roots", "faults_through_long_lived_options", "fault_with_now_unset"},
 	})
 }
